@@ -406,9 +406,17 @@ def owners_key(fn, key, exp, obs):
         # property that says what the state should have been
         return {"C14"} | STATE_OWNER.get(fn, set())
     if key == "fchild":
-        # what the forked child sees of start / pid / wait is the handle life cycle; which descriptors it is left
-        # with decides whether the parent ever sees end of stream (C02) and is the launch contract's "only the exit handle" (C11)
-        return {"C14", "C02", "C11"}
+        # what the forked child sees of start / pid / wait / a second start is the handle life cycle (C14); which descriptors it is
+        # left with decides whether the parent ever sees end of stream (C02) and is "only the exit handle" (C11); its signal mask
+        # is C12's; its own descriptors closed by destroy is a foreign close (C05)
+        o = obs.get("fchild") if isinstance(obs.get("fchild"), list) else []
+        e = exp if isinstance(exp, list) else []
+        diff = {i for i in range(max(len(o), len(e))) if (o[i] if i < len(o) else None) != (e[i] if i < len(e) else None)}
+        own = {"C14"}
+        if 3 in diff: own |= {"C02", "C11"}
+        if 4 in diff: own |= {"C12"}
+        if 6 in diff: own |= {"C05"}
+        return own
     return {"C14"}
 
 
